@@ -268,7 +268,16 @@ func runC19(c *core.Ctx) {
 		}
 	})
 
-	c.Clause("D3", func() {
+	c.Clause("D3", func() { runFieldCreateUnderLock(c) })
+
+	c.Clause("D4", func() { runCloneCompleteness(c) })
+
+	runC19rest(c)
+}
+
+// runFieldCreateUnderLock: check-then-act of MeasurementFields.CreateFieldIfNotExists (shared by C19 and C02).
+func runFieldCreateUnderLock(c *core.Ctx) {
+	{
 		f := c.Fn("tsdb.(*MeasurementFields).CreateFieldIfNotExists")
 		info := f.Info()
 		lock := func(e *core.Event) bool {
@@ -332,10 +341,57 @@ func runC19(c *core.Ctx) {
 			}
 		}
 		c.Check("publish-under-lock", f.Name+"/unlock-deferred", f.PosStr(), def, "the mutex must be held until the new map is stored (deferred unlock)")
-	})
+		// whenever the field is found (before or after taking the mutex) success requires the types to agree
+		found := func(x ast.Expr) bool {
+			be, ok := ast.Unparen(x).(*ast.BinaryExpr)
+			return ok && be.Op == token.NEQ && isNilExpr(info, be.Y) && !strings.Contains(core.ExprStr(be.X), ".")
+		}
+		typeDiff := func(x ast.Expr) bool {
+			be, ok := ast.Unparen(x).(*ast.BinaryExpr)
+			return ok && (be.Op == token.NEQ || be.Op == token.EQL) && strings.HasSuffix(core.ExprStr(be.X), ".Type")
+		}
+		bad := ""
+		k := 0
+		complete := f.Flow().ExplorePaths(func(kk core.VarKey, fct core.Fact) bool {
+			return kk.Root == nil && strings.HasPrefix(kk.Path, "cond:") && fct.Def != nil && (found(fct.Def) || typeDiff(fct.Def))
+		}, func(e *core.Event, st core.State) {
+			if e.Kind != core.EvReturn {
+				return
+			}
+			x, _ := f.ResultExpr(e, 0)
+			if x == nil || !isNilExpr(info, x) {
+				return
+			}
+			// was an existing field found on this path (most recent `f != nil` test true)?
+			wasFound := false
+			for kk, fct := range st {
+				if kk.Root == nil && strings.HasPrefix(kk.Path, "cond:") && fct.Def != nil && found(fct.Def) && fct.Bool == 1 {
+					wasFound = true
+				}
+			}
+			if !wasFound {
+				return
+			}
+			k++
+			okType := false
+			for kk, fct := range st {
+				if kk.Root == nil && strings.HasPrefix(kk.Path, "cond:") && fct.Def != nil && typeDiff(fct.Def) {
+					be := ast.Unparen(fct.Def).(*ast.BinaryExpr)
+					if (be.Op == token.NEQ && fct.Bool == 2) || (be.Op == token.EQL && fct.Bool == 1) {
+						okType = true
+					}
+				}
+			}
+			if !okType {
+				bad = "CreateFieldIfNotExists returns success @" + c.P.Pos(e.Pos()) + " for a field that already exists without comparing its type with the requested one: two concurrent writers that introduce the same new field with different types are both acknowledged and the field holds values of two types"
+			}
+		})
+		c.Need(complete && k >= 2, "success returns for an existing field in CreateFieldIfNotExists")
+		c.Check("existing-field-type-compared", f.Name+"/found-returns", f.PosStr(), bad == "", bad)
+	}
+}
 
-	c.Clause("D4", func() { runCloneCompleteness(c) })
-
+func runC19rest(c *core.Ctx) {
 	c.Clause("D5", func() {
 		n := 0
 		for _, f := range c.P.FuncsIn(coord) {
